@@ -120,7 +120,7 @@ class History:
         before = len(self.g._nodes)
         try:
             ok = self.g.add_random_op()
-        except gen.NumpyReject:
+        except (gen.NumpyReject, KeyError, TypeError, IndexError, ValueError, AttributeError):
             ok = False
         if not ok:
             del self.g._nodes[before:]
